@@ -471,7 +471,13 @@ impl RawAutomaton {
         let mut power_transitions = Vec::with_capacity(self.transitions.len());
         let mut final_states =
             FxHashSet::with_capacity_and_hasher(self.final_states.len(), FxBuildHasher);
-        let markers = Vec::from_iter(self.markers.clone());
+        // When completing, all unmarked letters have to be covered, even if `self` does
+        // not use them (e.g., the automata of the empty language or of epsilon have no
+        // transition at all).
+        let markers = Vec::from_iter(
+            (self.markers.iter().copied())
+                .chain((completion && !self.markers.contains(&0)).then_some(0)),
+        );
 
         while let Some(power_state) = pending.pop() {
             if let Entry::Vacant(entry) = visited.entry(power_state.clone()) {
@@ -533,7 +539,7 @@ impl RawAutomaton {
             initial_state: 0,
             final_states,
             transitions,
-            markers: self.markers,
+            markers: FxHashSet::from_iter(markers),
         }
     }
 
